@@ -21,7 +21,7 @@ SYS = {
     'DFSR': ('dfsr', 'reg'), 'DFAR': ('dfar', 'int'), 'HDFAR': ('hdfar', 'int'), 'HPFAR': ('hpfar', 'reg'),
     'TTBCR': ('ttbcr', 'reg'), 'DACR': ('dacr', 'reg'), 'PRRR': ('prrr', 'reg'), 'NMRR': ('nmrr', 'reg'),
     'FCSEIDR': ('fcseidr', 'reg'), 'MPUIR': ('mpuir', 'reg'), 'TEECR': ('teecr', 'reg'), 'HDCR': ('hdcr', 'reg'),
-    'JMCR': ('jmcr', 'reg'),
+    'JMCR': ('jmcr', 'reg'), 'MAIR0': ('mair0', 'int'), 'MAIR1': ('mair1', 'int'),
 }
 SYS64 = {'TTBR0': 'ttbr0_64', 'TTBR1': 'ttbr1_64'}      # low word modelled, high word must not change
 MPU = [('DRSR', 'drsrs', 'reg'), ('DRBAR', 'drbars', 'int'), ('DRACR', 'dracrs', 'reg')]
@@ -232,8 +232,44 @@ def header(cfg, base):
     return {'h': {'cfg': spec_cfg(cfg), 'base': b}}
 
 
+class StepTimeout(Exception):
+    """the implementation did not return from one public call (non-termination is a host-level failure)"""
+
+
+_timeouts = [0]
+
+
+def _on_alarm(signum, frame):
+    raise StepTimeout('no return within the per-call deadline')
+
+
+def _arm_deadline():
+    import signal
+    try:
+        signal.signal(signal.SIGALRM, _on_alarm)
+        signal.setitimer(signal.ITIMER_REAL, 10.0 if _timeouts[0] < 3 else 1.0)
+    except ValueError:                       # not in the main thread: no watchdog
+        pass
+
+
+def _disarm_deadline():
+    import signal
+    try:
+        signal.setitimer(signal.ITIMER_REAL, 0)
+    except ValueError:
+        pass
+
+
 def run_action(arm, act):
     """perform one public call; returns (outcome, opcode class name, #unpredictable prints)"""
+    _arm_deadline()
+    try:
+        return _run_action(arm, act)
+    finally:
+        _disarm_deadline()
+
+
+def _run_action(arm, act):
     from armulator.armv6.arm_exceptions import DataAbortException
     from armulator.armv6.enums import DAbort
     arm._taken.clear()
@@ -305,6 +341,8 @@ def run_action(arm, act):
         out = 'hosterror:RecursionError'
     except Exception as ex:                                   # noqa: any host-level error is an outcome to judge
         out = 'hosterror:' + type(ex).__name__
+        if isinstance(ex, StepTimeout):
+            _timeouts[0] += 1
         import traceback
         tb = traceback.extract_tb(ex.__traceback__)
         arm._last_tb = '%s:%d %s: %s' % (os.path.basename(tb[-1].filename), tb[-1].lineno, tb[-1].name, ex)
